@@ -255,10 +255,14 @@ class TcpConnection():
                 self.sock.send(b"")
                 return True
 
+            except (BlockingIOError, InterruptedError):
+                #: The connection is still being established.
+                continue
+
             except OSError as e:
-                if e.args[0] == 10057:
-                    self.connection_attempts -= self.connection_attempts
-                    return False
+                #: Refused, reset, unreachable, not connected: a nack.
+                self.connection_attempts -= self.connection_attempts
+                return False
 
 
 
